@@ -39,7 +39,9 @@ fn set_tables() {
     set_table_n(1, &table_b());
 }
 
-const TEXTS: [&str; 5] = ["x*2+y*x-3", "f(x-1)/y", "1+2*x", "x", "2**x*y-x**y"];
+/// the last two: one level with 18 binary operators; read with table A resp. table B the two
+/// texts have the same sequence of operator *indices* (with other names and priorities)
+const TEXTS: [&str; 7] = ["x*2+y*x-3", "f(x-1)/y", "1+2*x", "x", "2**x*y-x**y", "x+y-2/x**y+x-y/2**x+y-x/y**2+x-y/x**y+2-x", "x**y/2-x+y**x/y-2+x**y/x-y+2**x/y-x+y**2/x"];
 
 #[derive(Clone, Debug, Hash, PartialEq, Eq)]
 pub enum Job {
@@ -384,6 +386,7 @@ pub fn bodies() -> Vec<Body> {
         Body { name: "B2-parse-default-tables", shared_text: TEXTS[3], shared_deep: false, threads: vec![vec![ParseEval(2, 0, false, 0), ParseVal(0), ParseF64(0)], vec![ParseF64(1), ParseEval(2, 1, false, 1), ParseVal(1)]] },
         Body { name: "B2-value-type-two-integer-widths", shared_text: TEXTS[3], shared_deep: false, threads: vec![vec![ParseVal(2), ParseVal64(0)], vec![ParseVal64(1), ParseVal(2)]] },
         Body { name: "B2-equally-named-operator-factories", shared_text: TEXTS[3], shared_deep: false, threads: vec![vec![SameNameFactory(0), SameNameFactory(1)], vec![SameNameFactory(1), SameNameFactory(0)]] },
+        Body { name: "B2-index-aligned-long-levels-of-two-factories", shared_text: TEXTS[3], shared_deep: false, threads: vec![vec![ParseEval(5, 0, true, 0), ParseEval(6, 1, true, 1)], vec![ParseEval(6, 1, true, 2), ParseEval(5, 0, true, 3)]] },
         Body { name: "B2-six-literal-matchers", shared_text: TEXTS[3], shared_deep: false, threads: vec![vec![Matchers(0)], vec![Matchers(3)]] },
         Body { name: "B3-convert-clone-while-evaluating", shared_text: TEXTS[1], shared_deep: false, threads: vec![vec![CloneConvert(0)], vec![EvalShared(1), EvalShared(2)]] },
         Body { name: "B4-uncompiled-shared-evalvec-and-compiled-clones", shared_text: TEXTS[3], shared_deep: false, threads: vec![vec![EvalVecW(0), CompileCloneW(1)], vec![CompileCloneW(2), EvalVecW(3)]] },
@@ -398,6 +401,14 @@ pub struct Collected {
     pub bad: Vec<(String, String)>,
     pub outcomes: BTreeSet<String>,
     pub executions: u64,
+    /// first schedule (choice prefix) under which each deviation / each outcome was observed
+    pub sched_of: std::collections::BTreeMap<String, Vec<usize>>,
+}
+impl Collected {
+    fn bad(&mut self, sig: String, what: String) {
+        self.sched_of.entry(sig.clone()).or_insert_with(sched::current_choices);
+        self.bad.push((sig, what));
+    }
 }
 
 /// the closure executed under every schedule
@@ -422,7 +433,7 @@ fn make_body(b: Body, col: Arc<Mutex<Collected>>) -> impl Fn() + Send + Sync + '
             Err(m) => {
                 set_yield(false);
                 let mut c = col.lock().unwrap();
-                c.bad.push((format!("{}:shared-expression-rejected", b.name), format!("the shared text of body {} was rejected in this execution: {m}", b.name)));
+                c.bad(format!("{}:shared-expression-rejected", b.name), format!("the shared text of body {} was rejected in this execution: {m}", b.name));
                 c.executions += 1;
                 return;
             }
@@ -445,8 +456,8 @@ fn make_body(b: Body, col: Arc<Mutex<Collected>>) -> impl Fn() + Send + Sync + '
                 for job in &jobs {
                     match guard(|| run_job(job, &shared, stext, &sharedw)) {
                         Ok(Ok(obs)) => log.lock().unwrap().push((tid, obs)),
-                        Ok(Err(m)) => col.lock().unwrap().bad.push((format!("{bname}:deviation:{job:?}"), m)),
-                        Err(p) => col.lock().unwrap().bad.push((format!("{bname}:panic:{job:?}"), format!("panic: {p}"))),
+                        Ok(Err(m)) => col.lock().unwrap().bad(format!("{bname}:deviation:{job:?}"), m),
+                        Err(p) => col.lock().unwrap().bad(format!("{bname}:panic:{job:?}"), format!("panic: {p}")),
                     }
                 }
             }));
@@ -462,17 +473,21 @@ fn make_body(b: Body, col: Arc<Mutex<Collected>>) -> impl Fn() + Send + Sync + '
         };
         let mut c = col.lock().unwrap();
         if dump0 != dump1 {
-            c.bad.push((format!("{}:shared-expression-modified", b.name), "the structural dump of the shared expression changed during concurrent evaluation".into()));
+            c.bad(format!("{}:shared-expression-modified", b.name), "the structural dump of the shared expression changed during concurrent evaluation".into());
         }
         // outcome = per-thread observation sequences (order across threads is schedule dependent)
         let mut l = log.lock().unwrap().clone();
         l.sort();
+        c.sched_of.entry(format!("outcome:{l:?}")).or_insert_with(sched::current_choices);
         c.outcomes.insert(format!("{l:?}"));
         c.executions += 1;
     }
 }
 
 fn explore_body(b: &Body, bound: usize, rep: &mut Report) {
+    if crate::hist::replaying() {
+        return;
+    }
     let col = Arc::new(Mutex::new(Collected::default()));
     let t0 = std::time::Instant::now();
     let st = sched::explore(bound, false, make_body(b.clone(), col.clone()));
@@ -487,11 +502,11 @@ fn explore_body(b: &Body, bound: usize, rep: &mut Report) {
         rep.violations.push(Violation {
             signature: format!("{}:schedule-dependent-observations", b.name),
             what: format!("{} distinct observation sets over the schedules of body {}: {:?}", c.outcomes.len(), b.name, c.outcomes.iter().take(3).collect::<Vec<_>>()),
-            case: json!({"engine": "c20", "body": b.name, "bound": bound}),
+            case: json!({"engine": "c20", "body": b.name, "bound": bound, "schedules": c.outcomes.iter().take(2).map(|o| c.sched_of.get(&format!("outcome:{o}")).cloned().unwrap_or_default()).collect::<Vec<_>>()}),
         });
     }
     for (sig, what) in &c.bad {
-        rep.violations.push(Violation { signature: sig.clone(), what: what.clone(), case: json!({"engine": "c20", "body": b.name, "bound": bound}) });
+        rep.violations.push(Violation { signature: sig.clone(), what: what.clone(), case: json!({"engine": "c20", "body": b.name, "bound": bound, "schedule": c.sched_of.get(sig)}) });
     }
     if let Some(d) = &st.diverged {
         if c.bad.is_empty() && c.outcomes.len() <= 1 {
@@ -516,6 +531,9 @@ fn explore_body(b: &Body, bound: usize, rep: &mut Report) {
 
 /// determinism self-check: one recorded schedule replayed twice gives identical observations
 fn replay_twice(b: &Body, rep: &mut Report) {
+    if crate::hist::replaying() {
+        return;
+    }
     let col = Arc::new(Mutex::new(Collected::default()));
     let st = sched::explore(1, true, make_body(b.clone(), col.clone()));
     let Some(sch) = st.schedules.iter().rev().find(|s| s.iter().any(|c| *c != 0)).cloned() else { return };
@@ -583,10 +601,49 @@ impl Hist for Seq {
     }
 }
 
+/// replay of recorded schedules (choice prefixes, then always the first enabled task) of one body
 pub fn replay(case: &Value) -> i32 {
+    install_panic_hook();
     println!("case: {case}");
-    println!("re-run `verif check C20` to re-explore the schedules of this body");
-    0
+    if !case["history"].is_null() {
+        return crate::hist::replay_by_search("C20", case);
+    }
+    let Some(bi) = bodies().iter().position(|b| Some(b.name) == case["body"].as_str()) else {
+        println!("unknown body");
+        return 2;
+    };
+    let to_vec = |v: &Value| -> Option<Vec<usize>> { v.as_array().map(|a| a.iter().map(|x| x.as_u64().unwrap_or(0) as usize).collect()) };
+    let scheds: Vec<Vec<usize>> = match (to_vec(&case["schedule"]), case["schedules"].as_array()) {
+        (Some(s), _) => vec![s],
+        (None, Some(a)) => a.iter().filter_map(to_vec).collect(),
+        _ => {
+            println!("no schedule recorded for this case; re-run `verif check C20`");
+            return 2;
+        }
+    };
+    let mut outcomes = BTreeSet::new();
+    let mut n_bad = 0;
+    for sch in scheds {
+        let col = Arc::new(Mutex::new(Collected::default()));
+        let _ = sched::replay_one(sch.clone(), make_body(bodies()[bi].clone(), col.clone()));
+        let c = col.lock().unwrap();
+        println!("schedule {sch:?}:");
+        for (s, w) in &c.bad {
+            println!("  BAD {s}: {}", w.chars().take(400).collect::<String>());
+            n_bad += 1;
+        }
+        for o in &c.outcomes {
+            println!("  observations: {}", o.chars().take(400).collect::<String>());
+            outcomes.insert(o.clone());
+        }
+    }
+    if n_bad > 0 || outcomes.len() > 1 {
+        println!("  => deviation from the schedule-independent reference reproduced");
+        1
+    } else {
+        println!("  => no deviation under the recorded schedule(s)");
+        0
+    }
 }
 
 /// fresh-process replay of one schedule (first-use initialisation of the global regexes)
@@ -610,6 +667,9 @@ pub fn fresh_replay_main(args: &[String]) -> i32 {
 }
 
 fn fresh_process_replays(bi: usize, rep: &mut Report) {
+    if crate::hist::replaying() {
+        return;
+    }
     let b = bodies()[bi].clone();
     let col = Arc::new(Mutex::new(Collected::default()));
     let st = sched::explore(1, true, make_body(b.clone(), col));
@@ -651,7 +711,7 @@ fn fresh_process_replays(bi: usize, rep: &mut Report) {
 
 pub fn run(tier: Tier) -> i32 {
     let mut rep = Report::new("C20", tier);
-    rep.rule = "schedules: real exmex code on shuttle threads under a preemption-bounded DFS scheduler (scheduling point = every call-back into the harness data type / operator factory / literal matcher), all schedules with <= b preemptions, b iterated 0,1,2(,3); sequential histories: two operator tables over the same data type with equally many operators in different slots and a prefix-related operator pair (`*`, `**`); all call sequences up to the length bound over 21 jobs (two equally named operator factory types; value type over 32- and 64-bit integers; six pattern-based literal matchers in rotation) (incl. two shared expressions of 2050 / 2300 operands) in one process; observations must equal the schedule-independent reference; distinct = schedules / histories; non-trivial = schedule with at least one preemption".into();
+    rep.rule = "schedules: real exmex code on shuttle threads under a preemption-bounded DFS scheduler (scheduling point = every call-back into the harness data type / operator factory / literal matcher), all schedules with <= b preemptions, b iterated 0,1,2(,3); sequential histories: two operator tables over the same data type with equally many operators in different slots and a prefix-related operator pair (`*`, `**`); all call sequences up to the length bound over 23 jobs (index-aligned levels of 18 operators read by two factories; two equally named operator factory types; value type over 32- and 64-bit integers; six pattern-based literal matchers in rotation) (incl. two shared expressions of 2050 / 2300 operands) in one process; observations must equal the schedule-independent reference; distinct = schedules / histories; non-trivial = schedule with at least one preemption".into();
     rep.assumptions = vec![
         "code between two call-backs runs atomically; lazy_static's Once is trusted (who initialises first is enumerated)".into(),
         "Send + Sync of FlatEx / DeepEx is asserted at compile time (harness and /verif/probe)".into(),
@@ -663,13 +723,13 @@ pub fn run(tier: Tier) -> i32 {
     let mut work: Vec<(usize, usize)> = Vec::new();
     for (bi, b) in bs.iter().enumerate() {
         // bodies with three threads or very many scheduling points stop one bound earlier
-        let three = b.threads.len() >= 3 || b.name.starts_with("B4") || b.name.starts_with("B5");
+        let three = b.threads.len() >= 3 || b.name.starts_with("B4") || b.name.starts_with("B5") || b.name.starts_with("B2-index");
         for bound in 0..=max_b {
             if three && bound > 2 {
                 continue;
             }
             // (three evaluations of three expressions per job: ~400 scheduling points)
-            if b.name.starts_with("B4") && bound + 1 > max_b {
+            if (b.name.starts_with("B4") || b.name.starts_with("B2-index")) && bound + 1 > max_b {
                 continue;
             }
             // (270 nested evaluations per thread: one preemption anywhere inside the first
@@ -729,8 +789,8 @@ pub fn run(tier: Tier) -> i32 {
     fresh_process_replays(5, &mut rep);
     // sequential histories
     use Job::*;
-    let jobs = vec![EvalShared(0), EvalVecShared(1), ParseEval(0, 0, false, 0), ParseEval(0, 1, false, 1), ParseEval(4, 0, true, 2), ParseEval(4, 1, true, 3), ParseEval(1, 1, false, 0), ParseEval(2, 0, true, 1), CloneConvert(2), EvalVecW(0), CompileCloneW(1), ParseF64(0), ParseVal(0), ParseVal(2), ParseVal64(0), Matchers(0), Matchers(4), SameNameFactory(0), SameNameFactory(1), EvalBig(0, 0), EvalBig(1, 1)];
+    let jobs = vec![EvalShared(0), EvalVecShared(1), ParseEval(0, 0, false, 0), ParseEval(0, 1, false, 1), ParseEval(4, 0, true, 2), ParseEval(4, 1, true, 3), ParseEval(1, 1, false, 0), ParseEval(2, 0, true, 1), CloneConvert(2), EvalVecW(0), CompileCloneW(1), ParseF64(0), ParseVal(0), ParseVal(2), ParseVal64(0), Matchers(0), Matchers(4), SameNameFactory(0), SameNameFactory(1), ParseEval(5, 0, true, 0), ParseEval(6, 1, true, 1), EvalBig(0, 0), EvalBig(1, 1)];
     let m = Seq { jobs: Arc::new(jobs), max_len: if tier.thorough() { 5 } else { 4 } };
-    explore(m, &mut rep, "c20", "sequential call histories over 21 jobs (two equally named operator factory types; value type over 32- and 64-bit integers; six pattern-based literal matchers in rotation)");
+    explore(m, &mut rep, "c20", "sequential call histories over 23 jobs (two factories with index-aligned levels of 18 operators; two equally named operator factory types; value type over 32- and 64-bit integers; six pattern-based literal matchers in rotation)");
     rep.finish()
 }
